@@ -29,3 +29,24 @@ CLAIMED["C04"] = (
     _TRUST + " Commands run one at a time; keywords compared case-sensitively.",
     "DESIGN.md section 4 C04",
 )
+CLAIMED["C02"] = (
+    "exploration",
+    "property-based testing: Hypothesis-generated message + namespace histories with restarts and packs; oracle = history-long ledger per (mailbox name, UIDVALIDITY) fed by an observer's read-back after every step",
+    "Generated histories over message-adding/removing and CREATE/DELETE/RENAME commands, pack and restart; the observer reveals every UID, UIDNEXT and UIDVALIDITY after every step (= every prefix) and a ledger checks ascent, non-reuse, UIDNEXT honesty, APPENDUID/COPYUID truthfulness and incarnation uniqueness. UIDs are constrained, not predicted.",
+    _TRUST + " One command session; the namespace model follows tagged results.",
+    "DESIGN.md section 4 C02",
+)
+CLAIMED["C03"] = (
+    "exploration",
+    "property-based testing: same generated histories; oracle = byte-identical BODY[] and same INTERNALDATE per (incarnation, UID) re-read after every step, plus seq<->UID correspondence probes",
+    "Every live message is re-read by UID after every step of generated histories (expunge, pack renumbering files, rename, restart, deliveries) and compared with what that UID first returned; sequence-numbered and UID-numbered fetches are cross-checked at every command boundary in a probed mailbox.",
+    _TRUST + " One command session plus observer (second-session interleavings are covered by C10).",
+    "DESIGN.md section 4 C03",
+)
+CLAIMED["C12"] = (
+    "exploration",
+    "property-based testing: generated histories with restarts at generated points (both the idle-exit and the direct shutdown path); oracle = pure before/after comparison of the complete client-visible state",
+    "Metamorphic before/after oracle (no model): LIST, LSUB, STATUS, UIDVALIDITY/UIDNEXT, (UID, message, flags) lists of every mailbox must be equal across an orderly restart inserted anywhere in generated histories that produce sparse UIDs, packed folders, placeholders, renamed trees and subscriptions.",
+    _TRUST + " The restart is in-process (shutdown() + new IMAPUserServer on the same directory), 30 virtual idle minutes for the idle-exit path.",
+    "DESIGN.md section 4 C12",
+)
